@@ -38,7 +38,7 @@ TinyOutcome(pl) ==
   ELSE [k |-> "stub", cls |-> ""]
 OutcomeOf(raw) == TinyOutcome(SubSeq(raw, 4, Len(raw) - 3))
 
-OptAll == {<<v, pa, q>> : v \in {0, 1}, pa \in BOOLEAN, q \in {0, 1, 2}}
+OptAll == {<<v, pa, q>> : v \in {0, 1, 2, 3}, pa \in BOOLEAN, q \in {0, 1, 2}}
 OptCore == {<<1, TRUE, 0>>, <<1, TRUE, 1>>, <<1, TRUE, 2>>, <<0, TRUE, 1>>, <<1, FALSE, 1>>, <<0, FALSE, 2>>}
 
 Seqs(S, n) == UNION {[1 .. k -> S] : k \in n .. n}
@@ -95,7 +95,7 @@ Produce ==
      \/ /\ Damage
         /\ \E f \in GoodFrames : \E i \in 4 .. Len(f) :
              /\ avail' = Flip(f, i) /\ want' = << >>
-             /\ expect' = IF parsed /\ validate = 1 THEN "report"
+             /\ expect' = IF parsed /\ validate % 2 = 1 THEN "report"
                           ELSE Owes(Flip(f, i))            \* validation or parsing off: CRC not looked at
              /\ (expect' = "frame" => want' = Flip(f, i))
   /\ UNCHANGED <<fvars, eof>>
